@@ -67,6 +67,7 @@ type Engine struct {
 	loopIdx      map[ast.Stmt]*types.Var
 	localRefs    map[string]bool
 	modifiesOK   map[string]bool // ref term strings writable by contract
+	modifiesFld  map[string]bool // "<ref>.<field>": single fields writable by contract (modifies c.columns)
 	obCount      map[string]int
 	pathN        int
 	inLit        int
@@ -1106,7 +1107,7 @@ func (e *Engine) writeField(st *State, base VTerm, field string, v Value, where 
 	if e.published[rs] {
 		unsup("write to field %s of an object after it was sent on a stream at %s", field, where)
 	}
-	if !e.localRefs[rs] && !e.modifiesOK[rs] {
+	if !e.localRefs[rs] && !e.modifiesOK[rs] && !e.modifiesFld[rs+"."+field] {
 		e.staticObl("frame/write-"+field, where, false, "write to field "+field+" of "+rs+" which is neither local nor in a modifies clause", nil)
 	}
 	key := "fld:" + rs + "." + field
